@@ -5,6 +5,8 @@
 //   inflate <hex>      re-frame a file with zlib/lz4 blobs as raw blobs (zlib/lz4 called directly)   -> hex
 //   walk <hex>         independent framing walker (hand-written varint parser, no protozero/libosmium)
 //                      -> "W blobs=<n> maxhdr=<bytes> maxblob=<bytes> maxraw=<bytes> maxent=<n>" or "W bad:<why>"
+//   est <opts> | <hdr> | <obj> | …   the REAL PBFOutputFormat fed object by object (private members via -fno-access-control):
+//                      -> "S <size()>:<count()> …" of the current PrimitiveBlock after every object (block accounting)
 //   big <kind> <n> <k> <len> <opts>   stress the block accounting (F12): kind w = n ways with k unique <len>-byte tag values each,
 //                      kind d = n dense nodes sharing k tags with <len>-byte values, kind r = n relations with k members with unique roles
 //                      -> "B write=<ok|err> blobs=.. maxraw=.. maxent=.. read=<ok|err:what> objs=<n>"
@@ -382,6 +384,25 @@ int main(int argc, char** argv) {
                 const std::string bytes = slurp(path);
                 ::unlink(path.c_str());
                 return err.empty() ? vh::hex(bytes) : err;
+            }
+            if (w[0] == "est" && w.size() == 2 && seg.size() >= 2) {
+                const Opts o = parse_opts(w[1]);
+                osmium::thread::Pool pool{1};
+                osmium::io::detail::future_string_queue_type queue{0, "est"};
+                const osmium::io::File file{"", format_string(o)};
+                osmium::io::detail::PBFOutputFormat fmt{pool, file, queue};
+                std::string out = "S";
+                for (std::size_t i = 2; i < seg.size(); ++i) {
+                    osmium::memory::Buffer buffer{64 * 1024, osmium::memory::Buffer::auto_grow::yes};
+                    build_object(buffer, seg[i]);
+                    for (const auto& item : buffer) {
+                        if (item.type() == osmium::item_type::node) fmt.node(static_cast<const osmium::Node&>(item));
+                        else if (item.type() == osmium::item_type::way) fmt.way(static_cast<const osmium::Way&>(item));
+                        else if (item.type() == osmium::item_type::relation) fmt.relation(static_cast<const osmium::Relation&>(item));
+                    }
+                    out += " " + std::to_string(fmt.m_primitive_block->size()) + ":" + std::to_string(fmt.m_primitive_block->count());
+                }
+                return out;
             }
             if (w[0] == "dec" && w.size() == 3) {
                 return read_dump(unhexs(w[2]), w[1]);
